@@ -746,10 +746,12 @@ def poll_rules(A, fl, rule, timeout_rule=None):
     for p in ps:
         v = PV(p)
         first = [(i, c) for pat in blocking for i, c in v.calls(pat)]
+        def _next_call(i_):
+            return next((e_ for e_ in v.ev[i_ + 1:] if e_.kind == 'call'), None)
         anyget = [(i, c) for i, c in v.calls('self.queue.get(___)') + v.calls('self.queue.get_nowait()')
-                  if not (txt(v.ev[i].expr) == 'self.queue.get()' and i + 1 < len(v.ev) and
-                          v.ev[i + 1].kind == 'call' and
-                          txt(v.ev[i + 1].expr).startswith('asyncio.wait_for(self.queue.get(), '))]
+                  if not (txt(v.ev[i].expr) == 'self.queue.get()' and
+                          _next_call(i) is not None and
+                          txt(_next_call(i).expr).startswith('asyncio.wait_for(self.queue.get(), '))]
         anyget = anyget + [x for x in first if x[0] not in [i for i, _ in anyget]]
         A.check(len(first) == 1 and first[0][0] == min(i for i, _ in anyget),
                 (timeout_rule or rule) + '.bounded-wait',
@@ -1031,6 +1033,24 @@ def writer_rules(A, fl, rule):
             A.check(all(t == 'self.poll()' for t in its), rule + '.writer-order',
                     '%s writer iterates the batch itself' % fl['name'], A.site(fi),
                     key='%s-writer-iter' % fl['name'], detail=its)
+        # a polled batch that is not empty is sent; the writer ends on an empty batch (or a
+        # failed poll / send), never on a non-empty one
+        for bi, pi in enumerate(polls):
+            nxt = polls[bi + 1] if bi + 1 < len(polls) else len(v.ev)
+            seg = v.ev[pi + 1:nxt]
+            if any(e.kind in ('exc', 'handler') for e in seg[:2]):
+                continue
+            nonempty = any(e.kind == 'guard' and atom(e.expr, e.pol) == ('self.poll()', True)
+                           for e in seg)
+            sent = any(e.kind == 'call' and txt(e.expr).startswith('ws.send(') for e in seg)
+            entered = any(e.kind == 'iter' and txt(e.expr) == 'self.poll()' for e in seg)
+            if nonempty:
+                A.check(sent or entered or any(e.kind in ('exc', 'handler') for e in seg),
+                        rule + '.writer', '%s writer: a non-empty batch is sent' % fl['name'],
+                        A.site(fi, v.node(pi)), key='%s-writer-drops-batch' % fl['name'],
+                        detail=v.describe(40),
+                        behaviour='the writer stops at the first real batch: nothing is ever '
+                                  'delivered over the WebSocket')
         if p.outcome == 'return':
             cl = v.calls('ws.close()')
             A.check(len(cl) == 1 and (not sends or cl[0][0] > sends[-1][0]), rule + '.writer-close',
